@@ -136,7 +136,8 @@ func (hc *histChecker) onReply(op *Op, connID string) {
 	hc.nChecked++
 	if op.Cmd.Tag == "aux" {
 		// an auxiliary command outside the model (SCRIPT LOAD): it must succeed and log nothing
-		if op.Reply.isErr() {
+		if op.Reply.isErr() && !(lower(op.Cmd.Args[0]) == "aofmd5" && strings.Contains(op.Reply.String(), "EOF")) {
+			// (a checksum over a stretch that reaches past the end of the log is refused with EOF)
 			w.violate(hc.class+"/reply", "a%02d op%d [%s] failed: %s", op.Client, op.Idx, clipStr(op.Cmd.String(), 100), clipStr(op.Reply.String(), 120))
 		}
 		return
